@@ -19,7 +19,7 @@ from coba.context import CobaContext, BasicLogger, MemoryCacher   # noqa: E402
 from coba.pipes import ListSink                              # noqa: E402
 from vf.lib import expparts as P                             # noqa: E402
 
-SHAPES = ['S1', 'S2', 'S3', 'S5', 'S4', 'S6', 'S7', 'S8', 'S9']
+SHAPES = ['S1', 'S2', 'S3', 'S5', 'S4', 'S6', 'S7', 'S8', 'S9', 'S10']
 CONFIGS = [(p, c, t) for p in (1, 2, 3) for c in (0, 1, 2) for t in (0, 1, 2)]
 
 
@@ -58,8 +58,8 @@ class C01(Check):
     ID = 'C01'
     LEVEL = 'model_checking'
     ENGINE = 'SCHED'
-    RULE = ('programs = 9 experiment shapes (1x1; 2 envs x stateful learners; shared chunk() prefix with shuffle(n=2); explicit triple list with a '
-            'shared learner, SequentialCB/RejectionCB and a logged env; PMF- and kwargs-returning learners; custom evaluator + cache() prefix; RejectionCB next to learners writing learning_info; one learner under several evaluators, plain and chunked) x '
+    RULE = ('programs = 10 experiment shapes (1x1; 2 envs x stateful learners; shared chunk() prefix with shuffle(n=2); explicit triple list with a '
+            'shared learner, SequentialCB/RejectionCB and a logged env; PMF- and kwargs-returning learners; custom evaluator + cache() prefix; RejectionCB next to learners writing learning_info; one learner under several evaluators, plain and chunked; an empty environment behind a chunk with a summary-row evaluator) x '
             'configurations processes{1,2,3} x maxchunksperchild{0,1,2} x maxtasksperchunk{0,1,2} x seeds; for each, every schedule of the '
             'simulated worker processes / loader / callbacks / log thread with <= b deviations from each default policy is executed; '
             'non-trivial = worker processes were spawned (or, for (1,0,0), the run is the reference itself run a second time)')
